@@ -1,37 +1,32 @@
 (** From the value handed to a marshal call (descriptor leaves are handles) to the value on
-    the wire (descriptor leaves are indices into the message's descriptor list): the k-th live
+    the wire (descriptor leaves are indices into the message's descriptor list): the k-th
     handle met in marshalling order gets index [start + k]. *)
 From RB Require Import Base.Prelude Sig.Types Wire.Value.
+
+Definition relabel_list (rl : val -> N -> val * N) : list val -> N -> list val * N :=
+  fix go (l : list val) (n : N) : list val * N :=
+    match l with
+    | [] => ([], n)
+    | x :: r => let '(x', n1) := rl x n in let '(r', n2) := go r n1 in (x' :: r', n2)
+    end.
+Definition relabel_entries (rl : val -> N -> val * N) : list (val * val) -> N -> list (val * val) * N :=
+  fix go (l : list (val * val)) (n : N) : list (val * val) * N :=
+    match l with
+    | [] => ([], n)
+    | (a, b) :: r =>
+        let '(a', n1) := rl a n in
+        let '(b', n2) := rl b n1 in
+        let '(r', n3) := go r n2 in ((a', b') :: r', n3)
+    end.
 
 Fixpoint relabel (v : val) (n : N) {struct v} : val * N :=
   match v with
   | VBase BUnixFd _ => (VBase BUnixFd n, n + 1)
   | VBase b k => (VBase b k, n)
   | VText b s => (VText b s, n)
-  | VArray t vs =>
-      let '(vs', n') := (fix go (l : list val) (n : N) : list val * N :=
-                           match l with
-                           | [] => ([], n)
-                           | x :: r => let '(x', n1) := relabel x n in let '(r', n2) := go r n1 in (x' :: r', n2)
-                           end) vs n in
-      (VArray t vs', n')
-  | VStruct vs =>
-      let '(vs', n') := (fix go (l : list val) (n : N) : list val * N :=
-                           match l with
-                           | [] => ([], n)
-                           | x :: r => let '(x', n1) := relabel x n in let '(r', n2) := go r n1 in (x' :: r', n2)
-                           end) vs n in
-      (VStruct vs', n')
-  | VDict k vt kvs =>
-      let '(kvs', n') := (fix go (l : list (val * val)) (n : N) : list (val * val) * N :=
-                            match l with
-                            | [] => ([], n)
-                            | (a, b) :: r =>
-                                let '(a', n1) := relabel a n in
-                                let '(b', n2) := relabel b n1 in
-                                let '(r', n3) := go r n2 in ((a', b') :: r', n3)
-                            end) kvs n in
-      (VDict k vt kvs', n')
+  | VArray t vs => let '(vs', n') := relabel_list relabel vs n in (VArray t vs', n')
+  | VStruct vs => let '(vs', n') := relabel_list relabel vs n in (VStruct vs', n')
+  | VDict k vt kvs => let '(kvs', n') := relabel_entries relabel kvs n in (VDict k vt kvs', n')
   | VVariant t x => let '(x', n') := relabel x n in (VVariant t x', n')
   end.
 
@@ -44,3 +39,11 @@ Fixpoint handles_live (v : val) : bool :=
   | VDict _ _ kvs => forallb (fun kv => handles_live (fst kv) && handles_live (snd kv)) kvs
   | VVariant _ x => handles_live x
   end.
+
+Lemma relabel_list_cons rl x r n : relabel_list rl (x :: r) n =
+  let '(x', n1) := rl x n in let '(r', n2) := relabel_list rl r n1 in (x' :: r', n2).
+Proof. reflexivity. Qed.
+Lemma relabel_entries_cons rl a b r n : relabel_entries rl ((a, b) :: r) n =
+  let '(a', n1) := rl a n in let '(b', n2) := rl b n1 in
+  let '(r', n3) := relabel_entries rl r n2 in ((a', b') :: r', n3).
+Proof. reflexivity. Qed.
